@@ -3,4 +3,4 @@ From MTV Require Import TLGen.Parser TLGen.Printer TLGen.Classify.
 Extraction "model.ml" utf8_decode is_space is_digit
   new_cursor cur_pos is_next read_at read_digits skip unread skip_spaces
   parse default_fuel parse_fuel print wf_schema
-  groups enums_of types_of singles_of generate isort_defs isort_strs wf_gen names_ok.
+  groups enums_of types_of singles_of generate isort_defs isort_strs wf_gen names_ok gen_call.
